@@ -163,15 +163,23 @@ func runC18(r *vk.Run) {
 		`sum by (seen) (count_over_time({job="j"} | label_format seen="{{ __line__ }}" | drop msg [10s]))`,
 		// keys of one object that collide once sanitised (u.id, u_id, u-id): whichever wins, it wins every time
 		`sum by (u_id) (count_over_time({job="j"} | json | drop msg [10s]))`, `{job="j"} | json | line_format "{{ .u_id }}" | keep u_id`,
+		// stages that remove or keep only one of the two labels describing a failure (every fourth line
+		// fails `| json`, every line fails the typed comparison)
+		`{job="j"} | json | drop __error__`, `{job="j"} | json | drop __error__, msg`, `{job="j"} | json | drop __error_details__, msg`, `{job="j"} | json | keep __error__`,
+		`{job="j"} | json | keep __error_details__, a`, `{job="j"} | json | drop __error__="JSONParserErr", msg`, `{job="j"} | logfmt | a > 5 | drop __error__, msg`,
+		`count_over_time({job="j"} | json | drop __error__, msg [10s])`, `sum by (__error_details__) (count_over_time({job="j"} | json | drop __error__ [10s]))`,
+		`{job="j"} | json | label_format e="{{ .__error__ }}" | drop __error__, msg`, `{job="j"} | unpack | drop __error__, msg`,
+		// names equal up to case are different names; the records keeping only them share one label set
+		`{job="j"} | json | keep Host, host, HOST`, `{job="j"} | logfmt | keep Host, host, HOST, job`, `count_over_time({job="j"} | json | keep Host, host [10s])`,
 		`avg(sum_over_time({job="j"} | json | drop msg | unwrap n [10s])) by (a)`, `stddev without (a) (sum_over_time({job="j"} | json | drop msg | unwrap n [10s]))`,
 	}
 	r.Phase("maporder", r.N(6, 120), func(c *vk.Case) {
 		rng := c.Rng
 		var recs []Rec
 		for i := 0; i < 12; i++ {
-			line := fmt.Sprintf(`{"a":"%s","b":"%s","u.id":"dot","u_id":"plain","u-id":"dash","n":%d.%d,"o":{"k%d":1,"z":[%d,null]},"x":{"y":{"deep":%d}}}`, vk.Pick(rng, []string{"p", "q", "r"}), vk.Pick(rng, []string{"u", "v"}), rng.Intn(100), rng.Intn(10), i%3, i, i%4)
+			line := fmt.Sprintf(`{"Host":"h1","host":"h2","HOST":"h3","a":"%s","b":"%s","u.id":"dot","u_id":"plain","u-id":"dash","n":%d.%d,"o":{"k%d":1,"z":[%d,null]},"x":{"y":{"deep":%d}}}`, vk.Pick(rng, []string{"p", "q", "r"}), vk.Pick(rng, []string{"u", "v"}), rng.Intn(100), rng.Intn(10), i%3, i, i%4)
 			if i%4 == 3 {
-				line = fmt.Sprintf("a=%s b=%s n=%d word other", vk.Pick(rng, []string{"p", "q"}), vk.Pick(rng, []string{"u", "v"}), rng.Intn(50))
+				line = fmt.Sprintf("Host=h1 host=h2 HOST=h3 a=%s b=%s n=%d word other", vk.Pick(rng, []string{"p", "q"}), vk.Pick(rng, []string{"u", "v"}), rng.Intn(50))
 			}
 			recs = append(recs, Rec{TS: c14T0 + int64(i)*5e8 + int64(i), Line: line, Labels: map[string]string{"job": "j", "pod": fmt.Sprint(i % 2)}})
 		}
